@@ -322,12 +322,12 @@ def run(run):
 
     seed_global(rng)
     fz = GrammarFuzzer(csvf.CSV_GRAMMAR, min_nonterminals=0, max_nonterminals=25)
-    for _ in range(120 if thorough else 30):
+    for _ in range(120 if thorough else 24):
         t = fz.fuzz_tree()
         if len(str(t)) <= 160:
             add("fuzzer", t)
     parser = EarleyParser(csvf.CSV_GRAMMAR)
-    for _ in range(150 if thorough else 40):
+    for _ in range(150 if thorough else 32):
         s = gen_csv_string(rng)
         t = DerivationTree.from_parse_tree(next(parser.parse(s)))
         add("parser", t)
